@@ -239,3 +239,15 @@ Definition check_exh (c : list (Z * option (list zitem18)) * list (nat * list ze
   let '(ts, cls, v, sels) := c in
   check_case (ZTests ts cls v)
   && forallb (fun p => check_case (ZByLabels ts (fst p) (snd p))) sels.
+
+(* classification_counts (stats.py): the counted summary as rendered in tables
+   and pie charts -- status_first, then the other members of the enum (values
+   0 .. nstat-1) in order; the statuses with a null count are omitted *)
+Definition class_counts (ok nstat : nat) (c : list (nat * list Z)) : list (nat * nat) :=
+  filter (fun p => negb (Nat.eqb (snd p) 0))
+         (map (fun s => (s, length (look Nat.eqb s c)))
+              (ok :: filter (fun s => negb (Nat.eqb s ok)) (seq 0 nstat))).
+
+Definition check_counts (c : nat * nat * list (nat * list Z) * list (nat * nat)) : bool :=
+  let '(nstat, ok, cls, impl) := c in
+  list_eqb (fun x y => Nat.eqb (fst x) (fst y) && Nat.eqb (snd x) (snd y)) (class_counts ok nstat cls) impl.
